@@ -1,6 +1,7 @@
 import Svgbob.Model.Front
 import Svgbob.Model.Doc
 import Svgbob.Model.Pipeline
+import Svgbob.Model.Shell
 /-!
 Line-protocol driver for the executable model. `svgbob_model <mode>` reads one case per line
 on stdin and answers one line per case in the same canonical format as the Rust harness.
@@ -217,6 +218,72 @@ def midOf (env : Env) (cells : Span) (esc : List (Cell × List Char)) :
     | none => none
     | some (fs, gs) => some (fs.map (·.frag), gs.map fun g => g.map (·.frag))
 
+/-! shells: the request carries the answers of the world -/
+
+def unhexS (s : String) : String := String.ofList (unhex s)
+
+/-- `k=v` fields separated by spaces: lookup -/
+def fld (fields : List String) (key : String) : Option String :=
+  fields.findSome? fun e =>
+    match e.splitOn "=" with
+    | [k, v] => if k == key then some v else none
+    | _ => none
+
+def pRead (tok : String) : ReadResult :=
+  match tok.splitOn ":" with
+  | ["ok", h] => .ok (unhexS h)
+  | ["err", h] => .ioError (unhexS h)
+  | _ => .notUtf8
+
+def pOptS (o : Option String) : Option String :=
+  match o with
+  | some "-" => none
+  | some h => some (unhexS h)
+  | none => none
+
+/-- a numeric option: `-` absent, `ok:<hex raw>:<hex canonical>` or `err:<hex raw>:<hex message>` -/
+def pNumOpt (o : Option String) : Option String × (String → Except String String) :=
+  match o with
+  | some tok =>
+    match tok.splitOn ":" with
+    | ["ok", raw, v] => (some (unhexS raw), fun _ => .ok (unhexS v))
+    | ["err", raw, m] => (some (unhexS raw), fun _ => .error (unhexS m))
+    | _ => (none, fun _ => .error "")
+  | none => (none, fun _ => .error "")
+
+def cliRun (fields : List String) : String :=
+  let inputTok := (fld fields "input").getD "stdin:bad"
+  let (input, readFile, stdin) : CliInput × (String → ReadResult) × ReadResult :=
+    match inputTok.splitOn ":" with
+    | ["inline", h] => (.inlineStr (some (unhexS h)), (fun _ => .notUtf8), .notUtf8)
+    | ["inlinenone"] => (.inlineStr none, (fun _ => .notUtf8), .notUtf8)
+    | "file" :: p :: rest => (.file (unhexS p), (fun _ => pRead (":".intercalate rest)), .notUtf8)
+    | "stdin" :: rest => (.stdin, (fun _ => .notUtf8), pRead (":".intercalate rest))
+    | _ => (.stdin, (fun _ => .notUtf8), .notUtf8)
+  let (fs, pfs) := pNumOpt (fld fields "fs")
+  let (sw, psw) := pNumOpt (fld fields "sw")
+  let (sc, psc) := pNumOpt (fld fields "sc")
+  let outTok := (fld fields "out").getD "-"
+  let (output, wr) : Option String × (String → String → Option String) :=
+    match outTok.splitOn ":" with
+    | ["ok", p] => (some (unhexS p), fun _ _ => none)
+    | ["err", p, m] => (some (unhexS p), fun _ _ => some (unhexS m))
+    | _ => (none, fun _ _ => none)
+  let w : World :=
+    { readFile := readFile, stdin := stdin, writeFile := wr,
+      parseUsize := fun t => match pfs t with | .ok v => .ok v.toNat! | .error m => .error m,
+      parseF32 := fun t => if some t == sw then psw t else psc t }
+  let convTok := (fld fields "conv").getD "panic"
+  let conv : String → ResolvedSettings → Option String :=
+    fun _ _ => if convTok == "panic" then none else some (unhexS convTok)
+  let a : CliArgs :=
+    { input := input, output := output,
+      settings := { background := pOptS (fld fields "bg"), fillColor := pOptS (fld fields "fill"),
+                    fontFamily := pOptS (fld fields "ff"), fontSize := fs, strokeWidth := sw,
+                    strokeColor := pOptS (fld fields "stc"), scale := sc } }
+  let o := cliMain w conv a
+  s!"exit={o.exit} stdout={hexOfChars o.stdout.toList} stderr_empty={b01 o.stderr.isEmpty} written={o.written.length}"
+
 def handle (mode : String) (fields : List String) : String :=
   match mode, fields with
   | "front", [inp, env] => showFront (front (parseEnv env) (unhex inp))
@@ -250,6 +317,12 @@ def handle (mode : String) (fields : List String) : String :=
       let cfg := pCfg cfgTok (unhex css0)
       let root := svgRoot (segColumns (parseEnv env)) cfg fo.cells fo.css fs gs
       "ok " ++ hexOfChars (Node.render cfg.den (pretty == "pretty") 0 root)
+  | "cli", fs => cliRun fs
+  | "http", [m, path, body, size] =>
+    let meth := if m == "GET" then Method.get else if m == "POST" then Method.post else Method.other
+    let utf8 := if body == "bad" then none else some (unhexS body)
+    let r := Svgbob.handle "N" "V" (fun t => "SVG(" ++ t ++ ")") ⟨meth, unhexS path, utf8, size.toNat!⟩
+    s!"status={r.status} body={hexOfChars r.body.toList}"
   | _, _ => "bad-request"
 
 partial def loop (h : IO.FS.Stream) (out : IO.FS.Stream) (mode : String) : IO Unit := do
